@@ -117,4 +117,14 @@ TEXT.update({
              "are discharged by kernel evaluation over its whole state table; tie = T1 facts + this run's gate scripts.",
         technique="Lean 4 proof (inductive invariant + ranking-function leadsTo over weakly fair runs) + regenerated configuration facts + forced-schedule differential"),
 })
+TEXT.update({
+    "C04": dict(
+        text="Lean theorems about the cleanup sub-system (cleanup goroutine inside WaitCond, cooldown timer, re-broadcast flag, self-removing timer goroutine, arbitrary mutators): "
+             "in every reachable state a reclaimable prefix implies a pending re-evaluation (no change is forgotten, for cooldown 0 and > 0, wherever the last change falls in a cooldown "
+             "window); along every weakly fair run that goes quiet the prefix is eventually reclaimed (ranking function) using at most one timer expiry; FixedBufferCleaner(max,target) "
+             "with 0 <= target <= max leaves at most max after one evaluation. The configuration 'timer goroutine re-broadcasts under the buffer mutex' is computed from the regenerated "
+             "skeleton; without it the model has a witness trace of a forgotten change (finding F1, fixed). Tied by forced schedules incl. the F1 window and by a quiet-phase check.",
+        note="Trusted: Lean kernel + 3 standard axioms; timers as fair environment events (no durations); finite model, inductive steps by kernel evaluation over the state table; tie = T1 facts + gate scripts of this run.",
+        technique="Lean 4 proof (inductive invariant + ranking-function leadsTo under weak fairness) + regenerated configuration facts + forced-schedule differential"),
+})
 NOT_YET = {}
